@@ -401,6 +401,7 @@ class _SetSpec:
                 "homogeneous": COLL_ALL(self._value, lambda x: TAG(x) == ET(self))}
 
 
+inline_ok(BOOLEAN_X + ".__bool__", why="trivial accessor: inlined")
 inline_ok(SET_X + ".element_type", SET_X + ".__iter__", SET_X + "._elementwise",
           SET_X + "._Decorator.homotypic_binary_operator", OPMOD + "_auto_swap",
           why="trivial accessor / private helper / decorator factory of the expression layer: inlined")
@@ -1235,4 +1236,9 @@ class _SetAttribute:
 
     def post(s):
         return {"count": IMPLIES(_name_is(s, "count"), lambda: AND(is_rat(s.result), lambda: rv(s.result) == CARD(s.self))),
-                "min-max-select": IMPLIES(_name_is(s, "min", "max"), lambda: MEMBER_OF(s.result, s.self))}
+                "min-max-select": IMPLIES(_name_is(s, "min", "max"), lambda: MEMBER_OF(s.result, s.self)),
+                # the true minimum / maximum by the rational order
+                "min": IMPLIES(AND(_name_is(s, "min"), ET_IS(s.self, RATIONAL_X)),
+                               lambda: FORALL_MEMBER(s.self, lambda x: rv(s.result) <= rv(x))),
+                "max": IMPLIES(AND(_name_is(s, "max"), ET_IS(s.self, RATIONAL_X)),
+                               lambda: FORALL_MEMBER(s.self, lambda x: rv(s.result) >= rv(x)))}
